@@ -15,6 +15,9 @@
 (*        t = [ty |-> "raw", code] or [ty |-> "named", name]               *)
 (*   [ty |-> "type", name]          a TLV type on its own (one byte)       *)
 (*   [ty |-> "tlvs", v]             a raw TLV section                      *)
+(*   [ty |-> "custom", v, ret]      not a value of the crate: a user-defined *)
+(*        `WriteToHeader` value that appends v with write_all and returns  *)
+(*        ret (whatever it likes; the Builder must not depend on it)       *)
 (*   [ty |-> "raw", v]              not a value of the crate: one direct   *)
 (*        `io::Write::write` of v on the writer (any size), then `flush`   *)
 (***************************************************************************)
@@ -65,7 +68,7 @@ Encode(p) ==
       [] p.ty = "addr" -> RlOf(V2!EncodeAddresses(AddrFlat(p.a)))
       [] p.ty \in {"tlv", "pair"} -> EncodeTlv(KindCode(p.t), p.v)
       [] p.ty = "type" -> << << V2!TypeCode(p.name), 1 >> >>
-      [] p.ty \in {"tlvs", "raw"} -> p.v
+      [] p.ty \in {"tlvs", "raw", "custom"} -> p.v
       [] OTHER -> << >>
 
 (* values whose 16-bit length cannot hold them are refused before anything is written *)
